@@ -56,6 +56,9 @@ class ChainWorld(World):
         if prop == "C03" and rng.random() < 0.5:
             h["profile"] = "single-step"
             h["n_ops"] = rng.randint(8, 25)
+        if tier == "thorough" and rng.random() < 0.25:
+            h["n_ops"] = rng.randint(60, 200)        # long rotation histories (dozens of versions, many compromises)
+            h["clients"] = rng.choice([2, 3])
         return h
 
     def __init__(self, run, header):
